@@ -1,6 +1,7 @@
 import MicroHttp.Props.C08
 import MicroHttp.Props.C08Live
 import MicroHttp.Props.C08System
+import MicroHttp.Props.Tables
 #print axioms MicroHttp.C08.respond_ok
 #print axioms MicroHttp.C08.read_yields_deliveries
 #print axioms MicroHttp.C08.respond_arms_out
@@ -23,3 +24,5 @@ import MicroHttp.Props.C08System
 #print axioms MicroHttp.C08.answers_match_yields
 #print axioms MicroHttp.C08.finitely_many_polls
 #print axioms MicroHttp.C08.polls_end_idle
+#print axioms MicroHttp.Tables.client_write_state
+#print axioms MicroHttp.Tables.client_enqueue
